@@ -1,6 +1,8 @@
 package main
 
 import (
+	"io"
+	"net/http"
 	"context"
 	"fmt"
 	"net/http/httptest"
@@ -510,6 +512,109 @@ func init() {
 					break
 				}
 				o.Sample(map[string]any{"part": "gauge-schedules", "case": c, "interleavings": len(traces), "one_trace": one})
+			}
+		})
+}
+
+// ---- completions that really coincide (race flavour, 16 cores): several requests of one backend are released by the
+// backend at the same moment while two readers keep the collector's mutex busy; once everything has returned the
+// published gauge is zero. Quiescence is awaited by polling the backend's own in-flight count, not by a deadline.
+func init() {
+	type c13Conc struct {
+		Strategy string `json:"strategy"`
+		K        int    `json:"requests_released_together"`
+	}
+	vh.AddPart("C13", "gauge-concurrent", "race", vh.Opts{Shards: 5, Procs: 8, TimeoutS: 400},
+		func(e *vh.Env) []c13Conc {
+			var cs []c13Conc
+			for i, st := range allStrategies {
+				cs = append(cs, c13Conc{st, 4 + 2*(i%3)})
+			}
+			return cs
+		},
+		func(e *vh.Env, c c13Conc, o *vh.Out) {
+			o.Need("gauge_rounds")
+			bes := newBackends(1)
+			defer closeBackends(bes)
+			cfg := faultConfig(c.Strategy, bes, featureCfg{})
+			cfg.Server.Timeouts.Write = 3600
+			sys, err := startSys(cfg, bes, true)
+			if err != nil {
+				o.Inconcl("startSys: %v", err)
+				return
+			}
+			defer sys.Close()
+			stop := make(chan struct{})
+			var readers sync.WaitGroup
+			for i := 0; i < 2; i++ {
+				readers.Add(1)
+				go func() {
+					defer readers.Done()
+					for {
+						select {
+						case <-stop:
+							return
+						default:
+							sys.metricsJSON()
+						}
+					}
+				}()
+			}
+			defer func() { close(stop); readers.Wait() }()
+			rounds := e.Pick(150, 600)
+			client := &http.Client{Transport: &http.Transport{MaxIdleConnsPerHost: 32}, Timeout: 60 * time.Second}
+			for round := 0; round < rounds; round++ {
+				key := fmt.Sprintf("r%d", round)
+				hold := vh.Script{Status: 200, Framing: "chunked", Steps: []vh.Step{{Op: "write", N: 5}, {Op: "flush"}, {Op: "hold", Key: key}, {Op: "write", N: 5}}}
+				var wg sync.WaitGroup
+				for q := 0; q < c.K; q++ {
+					wg.Add(1)
+					go func() {
+						defer wg.Done()
+						req, _ := http.NewRequest("GET", "http://"+sys.Addr+"/together", nil)
+						req.Header.Set(vh.ScriptHeader, hold.Encode())
+						resp, err := client.Do(req)
+						if err == nil {
+							io.Copy(io.Discard, resp.Body)
+							resp.Body.Close()
+						}
+					}()
+				}
+				for t := 0; t < 20000 && bes[0].Inflight() < c.K; t++ {
+					time.Sleep(500 * time.Microsecond)
+				}
+				if bes[0].Inflight() < c.K {
+					o.Inconcl("round %d: only %d of %d requests reached the backend", round, bes[0].Inflight(), c.K)
+					bes[0].Release(key)
+					wg.Wait()
+					return
+				}
+				bes[0].Release(key)
+				wg.Wait()
+				// the handlers may still be on their way out: the gauge is polled until it is zero, for up to 10 s of real time (a generous watchdog: the handlers need microseconds)
+				var g int64
+				for t := 0; t < 5000; t++ {
+					time.Sleep(2 * time.Millisecond)
+					_, _, _, _, _, gauges := c13Snapshot(sys)
+					g = gauges["metrics:"+bes[0].Name]
+					if g == 0 {
+						break
+					}
+				}
+				o.Obs("gauge_rounds", 1)
+				if g != 0 && sys.LB.VerifBackends()[0].GetActiveConnections() != 0 {
+					o.Inconcl("round %d: the balancer's own in-flight count is still %d after 10 s (wall-clock watchdog, no verdict)", round, sys.LB.VerifBackends()[0].GetActiveConnections())
+					return
+				}
+				if g != 0 {
+					o.Viol("C13|gauge-not-zero|after-simultaneous-completions", fmt.Sprintf("%s: %d requests of %s completed together (round %d); 10 s after the last of them returned, with nothing in flight and the balancer's own count at zero, the published active_connections is still %d", c.Strategy, c.K, bes[0].Name, round, g), nil)
+					return
+				}
+			}
+			o.Eval(1)
+			o.Distinct(vh.J(c))
+			if c.Strategy == "round_robin" {
+				o.Sample(map[string]any{"part": "gauge-concurrent", "case": c, "rounds": rounds})
 			}
 		})
 }
